@@ -9,7 +9,7 @@ from ..spec import Tree, to_statechart
 
 PROP = 'C17'
 LEVEL = 'exploration'
-BUDGET = {'quick': 3200, 'thorough': 64000}
+BUDGET = {'quick': 9600, 'thorough': 128000}
 RULE = ('cases = (rename) well-formed instrumented chart whose names are fixed-width tokens + '
         'input history + a subset of states renamed tok -> tok+"x" (order preserving) with '
         'rename_state in a random order: the run of the renamed chart must equal the original run '
